@@ -32,12 +32,10 @@ EDGES = [
     (r"AtomicBitmap::enlarge$", r"Overflow:Add", r"^\$1\.byte_size,\$2$", "M",
      "enlarge(&mut self) is a management API called by the VMM with a size it chose, never with a guest scalar"),
     (r"AtomicBitmap::enlarge$", r"vec_op", r"Vec::resize_with", "M", "host allocation on a management path"),
-    (r"AtomicBitmap::(is_bit_set|set_bit|reset_bit)$", r"index", r"^Index::index\(\$1\.map,\(\$2 Shr 6\)\)$", "N",
-     "word index n>>6 is in range because n < self.size dominates (checked here) and size <= 64*map.len() (constructor/enlarge agreement, C09 R9.2)",
-     r"Lt\(\$2,\$1\.size\)"),
-    (r"AtomicBitmap::set_reset_addr_range$", r"index", r"^Index::index\(\$1\.map,\(ok\(range::next\(.*\) Shr 6\)\)$", "N",
-     "same as above for the loop variable: the `n >= size => break` test dominates both arms",
-     r"Lt\(ok\(range::next\(.*\)\),\$1\.size\)"),
+    (r"AtomicBitmap::\w+$", r"index", r"^Index::index\(\$1\.map,\((?P<n>.+) Shr 6\)\)$", "N",
+     "word index n>>6 is in range because n < self.size dominates (for the SAME n: a parameter, the loop variable, or the item of an iterator "
+     "chain behind take_while(n < size)) and size <= 64*map.len() (constructor/enlarge agreement, C09 R9.2)",
+     r"Lt\({n},\$1\.size\)"),
     (r"AtomicBitmap::set_reset_addr_range$", r"silent_wrap", r"^num::saturating_add\(\$2,\(\$3 Sub 1\)\.0\)$", "W",
      "documented: ranges whose end would overflow are clamped; pages past the end are ignored"),
     (r"AtomicBitmap as bitmap::NewBitmap>::with_len$", r"unwrap", r"libc::sysconf", "M",
